@@ -32,15 +32,25 @@ def ctor_ops(label, st):
     return 1
 
 
-def run_history(ctx, init, sessions, src):
+def run_history(ctx, init, sessions, src, rename=None):
     """init: one of absent/empty/header/rows/rows+buffer; sessions: list of dicts
-       {subjects: [...], schedule: [...], crash_after: int | None}"""
+       {subjects: [...], schedule: [...], crash_after: int | None}; rename: canonical subject name -> name actually submitted"""
     with quiet():
-        _run_history(ctx, init, sessions, src)
+        _run_history(ctx, init, sessions, src, rename)
 
 
-def _run_history(ctx, init, sessions, src):
+# the same histories with subject names that contain one another (the canonical names of the model stay s1.. in the record)
+CONTAINED = {"s1": "case_10", "s2": "case_1", "s 3": "case", "s-4": "e_1"}
+CONTAINED2 = {"s1": "10", "s2": "1", "s 3": "0", "s-4": "subject"}
+
+
+def _run_history(ctx, init, sessions, src, rename=None):
     inp = {"init": init, "sessions": sessions, "src": src}
+    if rename:
+        inp["rename"] = rename
+    ren = (rename or {}).get
+    act = lambda n: ren(n, n)
+    inv = {v: k for k, v in (rename or {}).items()}
     d = workdir("c17")
     H = aggsched.Harness(d)
     uniq = SUBJECTS
@@ -56,22 +66,28 @@ def _run_history(ctx, init, sessions, src):
             agg0 = PA.Panoptica_Aggregator(mk_evaluator(), H.out)
             if init != "header":
                 a, b = subject_arrays(code["s1"])
-                agg0.evaluate(a, b, "s1")
+                agg0.evaluate(a, b, act("s1"))
                 minit["rows"] = [code["s1"]]
             if os.path.exists(H.buf) and init != "rows+buffer":
                 os.remove(H.buf)
             if init == "rows+buffer":
                 with builtins.open(H.buf, "a") as f:
-                    f.write("s2\n")          # stale claim of a killed run
+                    f.write(act("s2") + "\n")          # stale claim of a killed run
                 minit["buf_exists"], minit["buf"] = True, [code["s1"], code["s2"]]
             H.install()
             minit["out_exists"], minit["hdr"] = True, True
         ops, obs = [], []
         crash_between = False
 
-        def record():
+        def observe():
             o = H.observe()
-            obs.append((len(ops) - 1, o))
+            if rename:
+                o["rows"] = [inv.get(x, x) for x in o["rows"]]
+                o["buf"] = [inv.get(x, x) for x in o["buf"]]
+            return o
+
+        def record():
+            obs.append((len(ops) - 1, observe()))
 
         for si, sess in enumerate(sessions):
             subs = sess["subjects"]
@@ -101,7 +117,7 @@ def _run_history(ctx, init, sessions, src):
                 agg = box["agg"]
                 for i, nm in enumerate(subs):
                     a, b = subject_arrays(code[nm])
-                    H.C.spawn(i, (lambda a=a, b=b, nm=nm: agg.evaluate(a, b, nm)))
+                    H.C.spawn(i, (lambda a=a, b=b, nm=act(nm): agg.evaluate(a, b, nm)))
                 sched = list(sess["schedule"])
                 k = 0
                 while True:
@@ -123,7 +139,7 @@ def _run_history(ctx, init, sessions, src):
                     record()
             if crashed or budget is not None or si < len(sessions) - 1:
                 # a non-final session that ran to completion ends like a process exit without cleanup
-                before = H.observe()
+                before = observe()
                 if any(j not in H.C.done for j in list(H.C.gates)):
                     crash_between = True
                 ops.append(["crash"])
@@ -132,8 +148,10 @@ def _run_history(ctx, init, sessions, src):
             else:
                 for i, e in H.C.exc.items():
                     ctx.violation(f"thread {i} raised {type(e).__name__}: {e}", inp, key={"kind": "thread-raises"})
-        final = H.observe()
+        final = observe()
         ctx.case(inp, crash_between, sample=inp)
+        if rename:
+            ctx.count("subject_names_containing_one_another")
         ctx.count("init." + init)
         ctx.count(f"sessions.{len(sessions)}")
         if crash_between:
@@ -148,7 +166,7 @@ def _run_history(ctx, init, sessions, src):
             fails.append(f"after kill + restart + resubmission the file must hold exactly one row for each of {want}, but holds rows for {sorted(final['rows'])}")
         else:
             for r in final["raw_rows"]:
-                if r != reference_row(r[0], code[r[0]]):
+                if r != reference_row(r[0], code[inv.get(r[0], r[0])]):
                     fails.append(f"row of {r[0]} differs from an uninterrupted run")
         if fails:
             ctx.violation("C17 violated: " + fails[0], inp, impl={k2: final[k2] for k2 in ("hdrs", "rows", "buf")}, key={"kind": "restart"})
@@ -293,7 +311,7 @@ def rand_history(ctx, tag, i):
         last = s == n_sess - 1
         sessions.append({"subjects": subs, "schedule": sched if not last else sched,
                          "crash_after": None if last else rng.randint(0, 10 + len(sched))})
-    run_history(ctx, init, sessions, f"{tag}{i}")
+    run_history(ctx, init, sessions, f"{tag}{i}", rename=rng.choice([None, None, CONTAINED, CONTAINED2]))
 
 
 def run(ctx):
@@ -308,6 +326,13 @@ def run(ctx):
         run_history(ctx, "absent", [{"subjects": ["s 3", "s-4", "s2"], "schedule": [0] * 10 + [1] * 10, "crash_after": None},
                                     {"subjects": ["s 3", "s-4", "s2"], "schedule": [2] * 6, "crash_after": cp},
                                     {"subjects": ["s 3", "s-4", "s2"], "schedule": [], "crash_after": None}], f"emptycells.{cp}")
+    # subject names contained in one another, the longer one finished (or claimed) first; one session and kill + restart
+    for ren in (CONTAINED, CONTAINED2):
+        for init in ("absent", "rows", "rows+buffer"):
+            run_history(ctx, init, [{"subjects": ["s1", "s2", "s 3", "s-4"], "schedule": [0] * 12 + [1] * 12 + [2] * 12 + [3] * 12, "crash_after": None}],
+                        f"contained.{init}", rename=ren)
+            run_history(ctx, init, [{"subjects": ["s1", "s2", "s 3"], "schedule": [0] * 12 + [1] * 3, "crash_after": 18},
+                                    {"subjects": ["s1", "s2", "s 3"], "schedule": [], "crash_after": None}], f"contained.restart.{init}", rename=ren)
     ctx.extra["exhaustive_subspace"] = "every crash point (0..19 actions) of a one-subject session x 5 initial file states, followed by a complete restart"
     for i in range(ctx.scale(120, 2500)):
         rand_history(ctx, "rand", i)
@@ -345,4 +370,4 @@ def replay(ctx, rec):
     if i.get("mode") == "siblings":
         siblings(ctx, i["files"][0], i["files"][1], "replay")
     else:
-        run_history(ctx, i["init"], i["sessions"], "replay")
+        run_history(ctx, i["init"], i["sessions"], "replay", rename=i.get("rename"))
